@@ -400,6 +400,24 @@ def stage_structural_sweep(ctx: Ctx):
                         if d:
                             ctx.violation(f'pos|prim-put|{type(val).__name__}|{d[0].split(": ")[-1][:40]}', 'after putting a primitive to Constant.value the source parsed from scratch differs from the live tree',
                                           {**rec, 'result_src': root.src, 'diffs': d})
+            # (c2) the level of a relative import, also where the dots are all that stands between `from` and the module name
+            for isrc in ['from.mod import x\n', 'from ..mod import x\n', 'from mod import x\n', 'from...é.b import (x)\n', 'if 1:\n  from. mod import x\n', 'from.\\\n mod import x\n', 'from . import x\n', 'from.import x\n',
+                         'from\\\n ..mod import x\n']:
+                for lvl in (0, 1, 2, 3):
+                    root = fst.FST(isrc, 'exec')
+                    f = next(g for g in root.walk(True) if isinstance(g.a, ast.ImportFrom))
+                    rec = {'src': isrc, 'level': lvl}
+                    try:
+                        f.put(lvl, 'level')
+                    except Exception as e:
+                        d = reparse_diffs(root)
+                        if d:
+                            ctx.violation(f'sweep-raise-dirty|level|{type(e).__name__}', 'a refused level put left an inconsistent tree', {**rec, 'error': repr(e)[:200], 'diffs': d})
+                        continue
+                    ctx.tick(('sweep-level', isrc, lvl), 'sweep:import-level')
+                    d = reparse_diffs(root)
+                    if d:
+                        ctx.violation('pos|prim-put|ImportFrom.level', 'after putting ImportFrom.level the source parsed from scratch differs from the live tree', {**rec, 'result_src': root.src, 'diffs': d})
         for f in probe.walk(True):
             a = f.a
             if isinstance(a, (ast.AnnAssign, ast.For, ast.AsyncFor, ast.NamedExpr, ast.comprehension, ast.AugAssign)):
